@@ -110,7 +110,9 @@ class ConstantKernel(Kernel):
             x2 = x2.transpose(-1, -2).unsqueeze(-1)
 
         dtype = torch.promote_types(x1.dtype, x2.dtype)
-        batch_shape = torch.broadcast_shapes(x1.shape[:-2], x2.shape[:-2])
+        # with last_dim_is_batch the inputs carry the extra `d` batch dimension after the kernel's batch dimensions
+        kernel_batch_shape = self.batch_shape + (1,) if last_dim_is_batch else self.batch_shape
+        batch_shape = torch.broadcast_shapes(x1.shape[:-2], x2.shape[:-2], kernel_batch_shape)
         shape = batch_shape + (x1.shape[-2],) + (() if diag else (x2.shape[-2],))
         constant = self.constant.to(dtype=dtype, device=x1.device)
 
